@@ -109,6 +109,9 @@ def main():
                 mj = json.load(open(meta))
                 if only and not any(f.startswith(o) for o in only):
                     continue
+                if mj.get("outside_quantifier"):
+                    print(f"SKIPPED  {f:48} outside the property's quantifier: {mj.get('note', '')[:100]}", flush=True)
+                    continue
                 todo.append((f, mj.get("checks", [mj.get("property")]), os.path.join(patch_dir, f, "patch.diff")))
     ok_all = True
     for name, checks, edits in todo:
